@@ -416,3 +416,161 @@ pub fn canon_pretty(src: &str, edition: &str) -> Option<String> {
         r.ok()
     })
 }
+
+// ---------------------------------------------------------------------------------------------
+// gaps between consecutive list elements (C08)
+
+#[derive(Debug, Clone, Copy, PartialEq, Eq)]
+pub enum GapKind {
+    Items,
+    Stmts,
+    Fields,
+    Variants,
+    Arms,
+    Args,
+}
+
+#[derive(Debug, Clone, Copy)]
+pub struct Gap {
+    pub kind: GapKind,
+    pub lo: usize,
+    pub hi: usize,
+}
+
+struct GapFinder<'a> {
+    sm: &'a SourceMap,
+    out: Vec<Gap>,
+}
+
+impl<'a> GapFinder<'a> {
+    fn seq(&mut self, kind: GapKind, spans: Vec<Span>) {
+        for w in spans.windows(2) {
+            if w[0].from_expansion() || w[1].from_expansion() {
+                continue;
+            }
+            let (_, a_hi) = span_range(self.sm, w[0]);
+            let (b_lo, _) = span_range(self.sm, w[1]);
+            if a_hi <= b_lo {
+                self.out.push(Gap {
+                    kind,
+                    lo: a_hi,
+                    hi: b_lo,
+                });
+            }
+        }
+    }
+}
+
+impl<'a, 'ast> Visitor<'ast> for GapFinder<'a> {
+    fn visit_item(&mut self, i: &'ast ast::Item) {
+        match &i.kind {
+            ast::ItemKind::Mod(_, _, ast::ModKind::Loaded(items, ..)) => {
+                let v = items.iter().map(|it| with_attrs(it.span, &it.attrs)).collect();
+                self.seq(GapKind::Items, v);
+            }
+            ast::ItemKind::Impl(imp) => {
+                let v = imp.items.iter().map(|it| with_attrs(it.span, &it.attrs)).collect();
+                self.seq(GapKind::Items, v);
+            }
+            ast::ItemKind::Trait(t) => {
+                let v = t.items.iter().map(|it| with_attrs(it.span, &it.attrs)).collect();
+                self.seq(GapKind::Items, v);
+            }
+            ast::ItemKind::ForeignMod(f) => {
+                let v = f.items.iter().map(|it| with_attrs(it.span, &it.attrs)).collect();
+                self.seq(GapKind::Items, v);
+            }
+            ast::ItemKind::Enum(_, def, _) => {
+                let v = def.variants.iter().map(|x| with_attrs(x.span, &x.attrs)).collect();
+                self.seq(GapKind::Variants, v);
+            }
+            _ => {}
+        }
+        visit::walk_item(self, i);
+    }
+    fn visit_variant_data(&mut self, vd: &'ast ast::VariantData) {
+        if let ast::VariantData::Struct { fields, .. } = vd {
+            let v = fields.iter().map(|f| with_attrs(f.span, &f.attrs)).collect();
+            self.seq(GapKind::Fields, v);
+        }
+        visit::walk_struct_def(self, vd);
+    }
+    fn visit_block(&mut self, b: &'ast ast::Block) {
+        let v = b
+            .stmts
+            .iter()
+            .map(|s| match &s.kind {
+                ast::StmtKind::Let(l) => with_attrs(s.span, &l.attrs),
+                ast::StmtKind::Item(i) => with_attrs(s.span, &i.attrs),
+                ast::StmtKind::Expr(e) | ast::StmtKind::Semi(e) => with_attrs(s.span, &e.attrs),
+                ast::StmtKind::MacCall(m) => with_attrs(s.span, &m.attrs),
+                _ => s.span,
+            })
+            .collect();
+        self.seq(GapKind::Stmts, v);
+        visit::walk_block(self, b);
+    }
+    fn visit_expr(&mut self, e: &'ast ast::Expr) {
+        match &e.kind {
+            ast::ExprKind::Match(_, arms, _) => {
+                let v = arms.iter().map(|a| with_attrs(a.span, &a.attrs)).collect();
+                self.seq(GapKind::Arms, v);
+            }
+            ast::ExprKind::Call(_, args) => {
+                let v = args.iter().map(|a| with_attrs(a.span, &a.attrs)).collect();
+                self.seq(GapKind::Args, v);
+            }
+            ast::ExprKind::MethodCall(mc) => {
+                let v = mc.args.iter().map(|a| with_attrs(a.span, &a.attrs)).collect();
+                self.seq(GapKind::Args, v);
+            }
+            _ => {}
+        }
+        visit::walk_expr(self, e);
+    }
+}
+
+/// Byte ranges between consecutive items / statements / fields / variants / arms / call
+/// arguments of `src`. `None` if the text does not parse.
+pub fn list_gaps(src: &str, edition: &str) -> Option<Vec<Gap>> {
+    with_crate(src, edition, |k| {
+        let (k, sm) = k?;
+        let mut f = GapFinder { sm, out: vec![] };
+        let v = k.items.iter().map(|it| with_attrs(it.span, &it.attrs)).collect();
+        f.seq(GapKind::Items, v);
+        visit::walk_crate(&mut f, k);
+        Some(f.out)
+    })
+}
+
+// ---------------------------------------------------------------------------------------------
+// function bodies (comment-position domain of C02/C03)
+
+struct FnBodies<'a> {
+    sm: &'a SourceMap,
+    out: Vec<(usize, usize)>,
+}
+
+impl<'a, 'ast> Visitor<'ast> for FnBodies<'a> {
+    fn visit_fn(&mut self, fk: visit::FnKind<'ast>, sp: Span, id: ast::NodeId) {
+        if let visit::FnKind::Fn(_, _, f) = &fk {
+            if let Some(b) = &f.body {
+                if !b.span.from_expansion() {
+                    self.out.push(span_range(self.sm, b.span));
+                }
+            }
+        }
+        visit::walk_fn(self, fk);
+        let _ = (sp, id);
+    }
+}
+
+/// Byte ranges of the body blocks of all functions and methods. `None` if `src` does not parse.
+pub fn fn_body_ranges(src: &str, edition: &str) -> Option<Vec<(usize, usize)>> {
+    with_crate(src, edition, |k| {
+        let (k, sm) = k?;
+        let mut f = FnBodies { sm, out: vec![] };
+        visit::walk_crate(&mut f, k);
+        Some(f.out)
+    })
+}
